@@ -1,12 +1,14 @@
 import Gtree.Model.Api
+import Gtree.Lemmas.MkdirVerify
 /-
   C08 — verify reports exactly the differences (over the finite-map file system model).
   `verifyRootsApi` returns only an `Option Err`: it has no file-system result, i.e. it cannot change
   the file system (read-only by type). Proved: the verdict is nil iff no root has a difference (a
   missing path, or – strict only – an extra entry); the error is that of the first root that
   differs; for a root directory that exists, the listed paths are exactly the node paths that are
-  absent / the present entries that are not node paths. "A tree just created by Mkdir verifies
-  strictly" is covered by the correspondence suite (mkdir-then-verify on the real code).
+  absent / the present entries that are not node paths; and a forest just created by Mkdir (any
+  extension list) verifies, strictly too, against the file system Mkdir produced
+  (`C08_mkdir_then_verify`, for forests of good names with distinct sibling names, see Props/C06).
 -/
 namespace Gtree
 
@@ -103,5 +105,21 @@ theorem C08_missing_root_lists_all (fs : FS) (target : Bytes) (r : Visit) (vs : 
     (hmiss : fs.stat (filepathJoin [target, r.path]) = .error .notExist) :
     verifyRoot fs target (r :: vs) = .ok ⟨[], (r :: vs).map (fun v => filepathJoin [target, v.path])⟩ := by
   simp [verifyRoot, hmiss]
+
+/-- a forest just created by Mkdir, with any extension list, verifies – strictly as well -/
+theorem C08_mkdir_then_verify (f : Fmt) (exts : List Bytes) (ts : List Bytes) (roots : List T) (fs : FS) (strict : Bool)
+    (hts : GoodList ts) (hg : AllGoodL roots) (hd : DistinctL roots) (hc : fs.Closed) (hcanon : fs.Canon)
+    (hnf : ∀ i < ts.length, notFile fs (key (ts.take (i + 1))))
+    (hnone : anyRootExists fs (key ts) (roots.map (growRoot f)) = false) :
+    verifyRoots (mkdirRoots fs (key ts) exts (roots.map (growRoot f))).1 (key ts) strict (roots.map (growRoot f)) = none := by
+  rw [C08_nil_iff]
+  intro vs hvs
+  obtain ⟨t, ht, rfl⟩ := List.mem_map.mp hvs
+  obtain ⟨d, hv, hm, he⟩ := mkdir_then_verify f exts ts roots fs strict hts hg hd hc hcanon hnf hnone t ht
+  exact ⟨d, hv, hm, fun _ => he⟩
+
+/-- its hypotheses are satisfiable (the empty file system is closed and canonical; see the example in Props/C06) -/
+example : FS.Closed [] ∧ FS.Canon [] :=
+  ⟨fun _ _ h => absurd rfl h, fun _ h => absurd rfl h⟩
 
 end Gtree
